@@ -461,12 +461,13 @@ LoopAdvance ==
     /\ LET f == Top
            nd == f.nd
            acc == f.acc \o ret.items
-       IN IF nd.form = "until" /\ EvalE(nd.cond, scopes) # 0
+       IN IF f.it + 1 > lim.ll
+          THEN \* the pass just made counts, whether or not `until` would end the loop
+               FailWith("loop")
+          ELSE IF nd.form = "until" /\ EvalE(nd.cond, scopes) # 0
           THEN /\ stack' = SetTopFrame([f EXCEPT !.ph = "exit", !.acc = acc])
                /\ ret' = RetNone
                /\ UNCHANGED <<depth, scopes, inSpecs>>
-          ELSE IF f.it + 1 > lim.ll
-          THEN FailWith("loop")
           ELSE /\ stack' = SetTopFrame([f EXCEPT !.ph = "test", !.acc = acc, !.it = @ + 1,
                                                  !.lvv = @ + nd.step])
                /\ ret' = RetNone
